@@ -5,8 +5,8 @@ for d in "$@"; do
   name=$(basename $d); prop=${name%%-*}
   M=/var/tmp/verif-scratch/mq-$name; rm -rf $M; mkdir -p $M; rsync -a --exclude .git /repo/ $M/
   if ! (cd $M && git apply --whitespace=nowarn $OLDPWD/$d/patch.diff 2>/tmp/mq.err); then echo "$name: PATCH DOES NOT APPLY: $(head -2 /tmp/mq.err)"; rm -rf $M; continue; fi
-  out=$(VERIF_REPO=$M ./check $prop ${TIER:-quick} 2>&1); rc=$?
+  out=$(VERIF_OUTDIR=$M.out VERIF_REPO=$M ./check $prop ${TIER:-quick} 2>&1); rc=$?
   echo "$name rc=$rc $(echo "$out" | grep '^check' | cut -c1-100)"
   echo "$out" | grep "^violation\|CHECK-ERROR" | cut -c1-200 | head -4 | sed 's/^/     /'
-  rm -rf $M
+  rm -rf $M $M.out
 done
